@@ -383,6 +383,7 @@ func init() {
 
 func runC05(c *Ctx) {
 	trimKeepsRetained(c, "C05.e trim-keeps-retained")
+	shareClassifiersAgree(c, "C05.f share-classifier")
 	if f := c.fn("mqtt", "(*Server).publishRetainedToClient"); f != nil {
 		m := c.call1(f, "(*mqtt.TopicsIndex).Messages")
 		c.underFact("C05.a replay-guards", "(*mqtt.Server).publishRetainedToClient: shared subscriptions never get retained messages", m, textEq("mqtt.IsSharedFilter(sub.Filter)"), false, "")
@@ -588,6 +589,8 @@ func shadowCounters(c *Ctx, rule string, only string) {
 
 func runC06(c *Ctx) {
 	trimKeepsSubscriptions(c, "C06.e trim-keeps-shared-nodes", 4)
+	shareClassifiersAgree(c, "C06.f share-classifier")
+	listAndIndexInStep(c, "C06.g list-and-index-in-step")
 	sharedCandidatesOwner(c, "C06.c candidates-owner")
 	shadowCounters(c, "C06.d shadow-counters", "SharedSubscriptions")
 	if f := c.fn("mqtt", "(*Subscribers).SelectShared"); f != nil {
@@ -690,6 +693,8 @@ func init() {
 }
 
 func runC30(c *Ctx) {
+	prefixGuardTight(c, "C30.c prefix-guard")
+	subscribeValidityFirst(c, "C30.d validity-first")
 	valid := func(t string) bool {
 		return strings.HasPrefix(t, "mqtt.IsValidFilter(") && strings.HasSuffix(t, ", false)")
 	}
